@@ -100,6 +100,14 @@ def rtPrepare (sq : Rat → Rat) (g : Rat) (m : Mesh) (c : Nat) : Option RTCell 
   let nodal := (List.range n).map fun k => quads.map fun q => facetMean d Ai cc q k
   (matInv n nodal).map fun C => { d := d, Ai := Ai, c := cc, nodal := nodal, coeff := C }
 
+/-- `rtPrepare` followed by the **per-cell check the driver performs on every case**: the facet row has `rtN d`
+    entries and the computed coefficient matrix times the nodal matrix is the identity (exact rational test); a cell
+    failing it makes the driver print `ABORT` (a disagreement with the implementation in the correspondence run) -/
+def rtPrepareChecked (sq : Rat → Rat) (g : Rat) (m : Mesh) (c : Nat) : Option RTCell :=
+  (rtPrepare sq g m c).bind fun rc =>
+    if (m.row m.dim (m.dim - 1) c).length == rtN m.dim && matMul (rtN m.dim) rc.coeff rc.nodal == identity (rtN m.dim)
+    then some rc else none
+
 /-- value of basis function `j` at the real point `x` -/
 def rtValue (rc : RTCell) (j : Nat) (x : List Rat) : Rat :=
   let ms := rtMonos rc.d (rtLocal rc.d rc.Ai rc.c x)
@@ -129,6 +137,20 @@ def gammaEv : Rat := Proto.qsqrt (1 / 3)
 
 /-! ### the non-parametric evaluators as the driver uses them -/
 
+/-- discontinuous P1 on a quadrilateral / hexahedron with vertex coordinates `V`: local basis function `j` at the real
+    point `y`: `1, pt_1, …, pt_d` in the coordinates `pt = J(0)⁻¹ (y - T(0))` of the linearised cell -/
+def d1Value (d : Nat) (V : List (List Rat)) (j : Nat) (y : List Rat) : Rat :=
+  let zero := List.replicate d (0 : Rat)
+  if j = 0 then 1
+  else (rtLocal d (inv d (jacMat Kind.H d V zero)) (mapPoint Kind.H d V zero) y).getD (j - 1) 0
+
+/-- its node functional `l` (as `NodeFunctional` computes it): value at the image of the cell centre, half differences
+    of the values at the images of the facet centres `±e_i` -/
+def d1Functional (d : Nat) (V : List (List Rat)) (l : Nat) (fn : List Rat → Rat) : Rat :=
+  let zero := List.replicate d (0 : Rat)
+  let at_ := fun (x : List Rat) => fn (mapPoint Kind.H d V x)
+  if l = 0 then at_ zero else (1 / 2 : Rat) * (at_ (zero.set (l - 1) 1) - at_ (zero.set (l - 1) (-1)))
+
 open FeatModel.Poly in
 /-- families / shapes with a non-parametric evaluator modelled here: Rannacher–Turek and discontinuous P1 on
     quadrilaterals and hexahedra -/
@@ -142,15 +164,14 @@ def npEval (f : Fam) (m : Mesh) (c : Nat) (x : List Rat) : Option (List (Rat × 
   let V := m.entVerts d c
   let y := mapPoint Kind.H d V x
   if f == Fam.CR then
-    (rtPrepare Proto.qsqrt gammaEv m c).map fun rc =>
+    (rtPrepareChecked Proto.qsqrt gammaEv m c).map fun rc =>
       (List.range (rtN d)).map fun j => (rtValue rc j y, rtGrad rc j y)
   else
     -- discontinuous P1: 1, pt_1, …, pt_d in the coordinates of the linearised cell
     let zero := List.replicate d (0 : Rat)
     let Ai := inv d (jacMat Kind.H d V zero)
-    let p := rtLocal d Ai (mapPoint Kind.H d V zero) y
-    some (((1 : Rat), List.replicate d (0 : Rat)) ::
-      (List.range d).map fun i => (p.getD i 0, (List.range d).map fun a => mat Ai i a))
+    some ((List.range (d + 1)).map fun j =>
+      (d1Value d V j y, if j = 0 then List.replicate d (0 : Rat) else (List.range d).map fun a => mat Ai (j - 1) a))
 
 open FeatModel.Poly in
 /-- `Interpolator::project`: Rannacher–Turek: weighted facet means with the `gauss-legendre:2` rule; discontinuous P1:
@@ -161,10 +182,6 @@ def npInterp (f : Fam) (m : Mesh) (p : Poly) : List Rat :=
     (List.range (m.n (d - 1))).map fun e => rtFunctional Proto.qsqrt gaussPt m e (fun y => evalAt y p)
   else
     (List.range (m.n d)).flatMap fun c =>
-      let V := m.entVerts d c
-      let zero := List.replicate d (0 : Rat)
-      let at_ := fun (x : List Rat) => evalAt (mapPoint Kind.H d V x) p
-      at_ zero :: (List.range d).map fun i =>
-        (1 / 2 : Rat) * (at_ (zero.set i 1) - at_ (zero.set i (-1)))
+      (List.range (d + 1)).map fun l => d1Functional d (m.entVerts d c) l (fun y => evalAt y p)
 
 end FeatModel.FE
